@@ -1,6 +1,6 @@
 // C03 — all ingestion paths shred a Go value into the same Dremel column
 // streams.  A catalogue of compiled struct types (types.go) x generated
-// batches of values is handed to the library through nine entry points; the
+// batches of values is handed to the library through nine entry points (two of them also with the rows reversed through Swap); the
 // (column, value bytes, repetition level, definition level) sequences of every
 // row must be identical on all of them, equal to the model's `shred`
 // (Dremel/Model.v) and re-assemble to the value (Go: Schema.Reconstruct,
@@ -1521,7 +1521,8 @@ func randSplit(rng *rand.Rand, n int) []int {
 // ---------------------------------------------------------------------------
 
 func runC03(c *core.Ctx) {
-	c.Res.Rule = "catalogue of compiled struct types (required / `optional` scalars of every kind, pointers, repeated and LIST slices, nested lists, slices and maps of structs, embedded and nested structs, optional groups with repeated fields and vice versa, 3 levels of nesting) x generated batches: every nullable site (pointer, zero-able scalar, slice, map) follows, inverts or ignores a per-row (and per-element) run pattern with runs of 1..130 crossing 64-row words; batch sizes 1..200; each batch goes through the nine ingestion paths (whole batch or split into several Write calls); predicate: identical (column, value, r, d) sequences per row on every path, Reconstruct(Deconstruct(v)) = v up to nil/empty; correspondence: Deconstruct streams = model shred_rows (= model shred_batch), model asm of the streams = the value. Plus the null-run sweep: single-word patterns with <= 3 runs at every in-word offset through the typed path on optional fields of every null-index kernel, compared with the pattern and with the model's scan. A case = (type, batch, split); non-trivial = at least 2 rows; distinct by type + JSON of the batch."
+	c.Res.Rule = "catalogue of compiled struct types (required / `optional` scalars of every kind, pointers, repeated and LIST slices, nested lists, slices and maps of structs, embedded and nested structs, optional groups with repeated fields and vice versa, 3 levels of nesting) x generated batches: every nullable site (pointer, zero-able scalar, slice, map) follows, inverts or ignores a per-row (and per-element) run pattern with runs of 1..130 crossing 64-row words; batch sizes 1..200; each batch goes through the nine ingestion paths (whole batch or split into several Write calls; the typed and the reflection buffer additionally with the rows reversed through Swap before reading); predicate: identical (column, value, r, d) sequences per row on every path, Reconstruct(Deconstruct(v)) = v up to nil/empty; correspondence: Deconstruct streams = model shred_rows (= model shred_batch), model asm of the streams = the value. Plus the null-run sweep: single-word patterns with <= 3 runs at every in-word offset through the typed path on optional fields of every null-index kernel, compared with the pattern and with the model's scan. A case = (type, batch, split); non-trivial = at least 2 rows; distinct by type + JSON of the batch."
+	t0 := time.Now()
 	cats := catalogue()
 	byName := map[string]*cat{}
 	for _, ct := range cats {
@@ -1572,7 +1573,9 @@ func runC03(c *core.Ctx) {
 		c.Note("every batch size 1..200 for every catalogue type (%d types)", len(cats))
 	}
 
+	t1 := time.Now()
 	runSweep(c)
+	c.Note("wall time: catalogue batches %.1fs, null-run sweep %.1fs", t1.Sub(t0).Seconds(), time.Since(t1).Seconds())
 	writeVm(c)
 }
 
